@@ -717,6 +717,58 @@ Section XEvalL.
       destruct (rot_leaf_ok _ _ _ _ H) as [-> ->]. reflexivity.
   Qed.
 
+  (* the factors of a rotation are cast to the dtype of inexact data: their type is then that of the data, whatever
+     the type t of cos (2 * angles) *)
+  Lemma rot_ty_inexact t t' q : sd_inexact q = true -> rot_ty x64 t q = rot_ty x64 t' q.
+  Proof. unfold sd_inexact, rot_ty. destruct (sd_dt q) as [d|]; [|discriminate]. now intros ->. Qed.
+  Lemma rot_ty_exact t q : sd_inexact q = false -> rot_ty x64 t q = t.
+  Proof. unfold sd_inexact, rot_ty. destruct (sd_dt q) as [d|]; [|reflexivity]. now intros ->. Qed.
+  Lemma rot_ty_absorbs t q : sd_inexact q = true -> sd_avail x64 q = true -> absorbs x64 (rot_ty x64 t q) q = true.
+  Proof.
+    unfold sd_inexact, sd_avail, absorbs, rot_ty, sd_ty. destruct (sd_dt q) as [d|]; [|discriminate].
+    cbn [option_map]. intros -> Hav. revert Hav. destruct d, x64; try discriminate; reflexivity.
+  Qed.
+  (* ... so that the dtype of the ANGLES matters neither to the evaluation nor to the guard *)
+  Lemma rot_eval_angle_ty p p' s : pi_shape p = pi_shape p' -> forallb sd_inexact (flatten s) = true ->
+    rot_eval x64 p s = rot_eval x64 p' s.
+  Proof.
+    intros Hsh. unfold rot_eval. rewrite Hsh.
+    destruct s as [|[| |ks|[|[|[|[|[|n]]]]]|] cs]; try reflexivity.
+    - destruct cs as [|[q|] [|[u|] [|]]]; try reflexivity. cbn. intros H. apply andb_true_iff in H as [Hq _].
+      now rewrite (rot_ty_inexact (trig_ty x64 (pi_ty p)) (trig_ty x64 (pi_ty p')) q Hq).
+    - destruct cs as [|[a|] [|[q|] [|[u|] [|]]]]; try reflexivity. cbn. intros H.
+      apply andb_true_iff in H as [_ H]. apply andb_true_iff in H as [Hq _].
+      now rewrite (rot_ty_inexact (trig_ty x64 (pi_ty p)) (trig_ty x64 (pi_ty p')) q Hq).
+    - destruct cs as [|[a|] [|[q|] [|[u|] [|[v|] [|]]]]]; try reflexivity. cbn. intros H.
+      apply andb_true_iff in H as [_ H]. apply andb_true_iff in H as [Hq _].
+      now rewrite (rot_ty_inexact (trig_ty x64 (pi_ty p)) (trig_ty x64 (pi_ty p')) q Hq).
+  Qed.
+  Lemma rot_ok_angle_ty p p' s : pi_shape p = pi_shape p' -> forallb sd_inexact (flatten s) = true ->
+    rot_ok x64 p s = rot_ok x64 p' s.
+  Proof.
+    intros Hsh. unfold rot_ok. rewrite Hsh.
+    destruct s as [|[| |ks|[|[|[|[|[|n]]]]]|] cs]; try reflexivity.
+    - destruct cs as [|[q|] [|[u|] [|]]]; try reflexivity. cbn. intros H. apply andb_true_iff in H as [Hq _].
+      now rewrite (rot_ty_inexact (trig_ty x64 (pi_ty p)) (trig_ty x64 (pi_ty p')) q Hq).
+    - destruct cs as [|[a|] [|[q|] [|[u|] [|]]]]; try reflexivity. cbn. intros H.
+      apply andb_true_iff in H as [_ H]. apply andb_true_iff in H as [Hq _].
+      now rewrite (rot_ty_inexact (trig_ty x64 (pi_ty p)) (trig_ty x64 (pi_ty p')) q Hq).
+    - destruct cs as [|[a|] [|[q|] [|[u|] [|[v|] [|]]]]]; try reflexivity. cbn. intros H.
+      apply andb_true_iff in H as [_ H]. apply andb_true_iff in H as [Hq _].
+      now rewrite (rot_ty_inexact (trig_ty x64 (pi_ty p)) (trig_ty x64 (pi_ty p')) q Hq).
+  Qed.
+  Lemma rot_angle_ty_irrelevant p p' s : pi_shape p = pi_shape p' -> forallb sd_inexact (flatten s) = true ->
+    rot_eval x64 p s = rot_eval x64 p' s /\ rot_ok x64 p s = rot_ok x64 p' s.
+  Proof. intros H1 H2. split; [now apply rot_eval_angle_ty|now apply rot_ok_angle_ty]. Qed.
+  (* on inexact data the guard of a rotation is about shapes (and the mode) only *)
+  Lemma rot_ok_inexact p q : sd_inexact q = true ->
+    rot_ok x64 p (Node (KStokes 2) [Leaf q; Leaf q]) = shape_absorbs (pi_shape p) q && sd_avail x64 q.
+  Proof.
+    intros Hq. unfold rot_ok. rewrite sds_eqb_refl. cbn [andb].
+    destruct (sd_avail x64 q) eqn:Hav; [|now rewrite !andb_false_r].
+    now rewrite (rot_ty_absorbs _ q Hq Hav).
+  Qed.
+
   Lemma removelast_last_nat (l : list nat) : l <> [] -> removelast l ++ [last l 0] = l.
   Proof. intros H. symmetry. now apply app_removelast_last. Qed.
   Lemma toep_ok_eval p s : toep_ok x64 p s = true -> toep_eval x64 p s = Some s.
